@@ -69,6 +69,8 @@ def gen_data(rng, i):
     sessions = 1 + nprng.poisson(2, n)
     orders = nprng.binomial(sessions, 0.3)
     revenue = orders * nprng.lognormal(2, 0.5, n) + nprng.normal(5, 1, n)
+    if i % 3 == 2:
+        revenue = revenue + 1e6          # a large common offset: one-pass variance formulas lose ~1e-5 relative here
     cols = {
         "variant": variant,
         "sessions": sessions.tolist(),                        # int column
@@ -123,7 +125,11 @@ def variants_of(cols, rng, order_preserving):
     extra["zz_null"] = [None] * n
     extra["zz_num"] = [float(j) for j in range(n)]
     cols_first = {"zz_num": extra["zz_num"], **{c: extra[c] for c in reversed(list(cols))}, "zz_str": extra["zz_str"]}
-    out.append(("pandas+extra", backends.make_inputs(cols_first, ("pandas",))["pandas"], True))
+    pdf = backends.make_inputs(cols_first, ("pandas",))["pandas"]
+    # a pandas `object` column mixing ints, strings, floats and None: it has no Arrow representation, and no metric
+    # reads it — it must never be converted
+    pdf["zz_mixed"] = [(j, f"s{j}", j / 2, None)[j % 4] for j in range(n)]
+    out.append(("pandas+extra", pdf, True))
     out.append(("polars-lazy+extra", pl.DataFrame({k_: [backends._py(x) for x in v] for k_, v in extra.items()},
                                                   schema_overrides={"zz_null": pl.Float64}).lazy(), True))
     out.append(("pyarrow+extra", pa.table({k_: [backends._py(x) for x in v] for k_, v in extra.items()
@@ -186,7 +192,9 @@ def run(chk: Check, n):
                 if granular and not ordered:
                     continue              # resampling metrics: same numbers only for the same row order
                 w = ref[1][k]
-                ok = close(v, w, rel=0.0, abs_=0.0) if granular else close(v, w)
+                # with the 1e6 offset the differences of means lose ~7 digits on every engine (conditioning, not a
+                # defect): two-pass results still agree to 1e-6, one-pass formulas are off by ~1e-5
+                ok = close(v, w, rel=0.0, abs_=0.0) if granular else close(v, w, rel=1e-6 if i % 3 == 2 else 1e-8)
                 if not ok:
                     chk.fail("the same logical data gives different results depending on how it arrives",
                              dict(input=inp, reference=ref[0], field=repr(k), got=repr(v), expected=repr(w)))
